@@ -2637,12 +2637,6 @@ pair-aligned, and `highClosedKids` — no text node holds a high surrogate witho
 without lone surrogates; `TextNode` refuses others): joining `"…\ud83d"` with `"\ude00…"` would put a position of
 the result inside a surrogate pair. -/
 
-abbrev joinCompatB := PM.joinCompatB
-abbrev reopenOKB := PM.reopenOKB
-abbrev textAbsorbB := PM.textAbsorbB
-abbrev inlineUniformB := PM.inlineUniformB
-abbrev highClosedKids := PM.highClosedKids
-
 /-- `pairAligned` is the function the driver evaluates (op `deleteApplies`) -/
 theorem pairAligned_eq (doc : Node) (pos : Nat) : pairAligned doc pos = PM.pairAlignedB doc pos := by
   unfold pairAligned PM.pairAlignedB
